@@ -57,7 +57,7 @@ Lemma save_and_log_nl : forall a x ri sr name value cat nid input x' v,
   save_and_log a x ri sr name value cat nid input = Done x' v -> nl x x'.
 Proof.
   intros a x ri sr name value cat nid input x' v. unfold save_and_log.
-  destruct (trunc value _); [|discriminate]. destruct (get_run (session_ x) ri).
+  destruct (trunc value _); [|discriminate]. destruct (trunc_ellipsis input _) as [kept|]; [|discriminate]. destruct (get_run (session_ x) ri).
   - destruct (save_result _ _) as [rs ch]. intros H; inversion H; subst. destruct ch; nl_chain.
   - intros H; inversion H; subst. apply nl_refl.
 Qed.
